@@ -362,6 +362,32 @@ pub fn run_c08_one(tier: &str, rng: &mut Rng, model: &Model, rep: &mut Report, c
     run_section(rep, model, "cov-one", cases, &impl_cov, &judge_cov);
     let cases = cov_boundary_cases(rng);
     run_section(rep, model, "cov-bin-boundaries", cases, &impl_cov, &judge_cov);
+    // records longer than 2^22 bases whose length leaves 1..k-1 (and k+something) bases after the last multiple of 2^22:
+    // block-wise scanning of a long record must neither drop nor double the windows at block boundaries
+    let mut cases = Vec::new();
+    for extra in [3usize, 11, 20] {
+        let k = 15u64;
+        let n = (1usize << 22) + extra;
+        let unit = gen::clean_seq(rng, 4099, gen::Flavor::Uniform);
+        let mut s: Vec<u8> = Vec::with_capacity(n);
+        while s.len() < n {
+            let l = unit.len().min(n - s.len());
+            s.extend_from_slice(&unit[..l]);
+        }
+        // the last k-mer occurs once in the table, everything else is absent (bin 0): the tail windows are visible in bin 1
+        let mut tbl = Vec::new();
+        if let Some((f, r)) = kmer::kmer::KmerGenerator::new(&s[n - k as usize..], k as usize).next() {
+            tbl.push((f.min(r), 7u32));
+        }
+        let tbl_s = tbl.iter().map(|(a, b)| format!("{}:{}", a, b)).collect::<Vec<_>>().join(",");
+        let mut c = Case::new("cov", &[k, 5, 5, rng.below(2)], &s, "beyond-2^22-bases");
+        c.extra = format!("20 {}", if tbl_s.is_empty() { "-".to_string() } else { tbl_s });
+        cases.push(c);
+        if tier != "thorough" && extra == 11 {
+            break;
+        }
+    }
+    run_section(rep, model, "cov-long-record", cases, &impl_cov, &judge_cov);
 }
 
 // ---------------------------------------------------------------- C11
